@@ -91,8 +91,14 @@ class Ctl(object):
         s.rec = DRec(d, name)
         return s
 
-    def watch(self):
-        r = DRec(self.proto.when_disconnected(), 'watch%d' % len(self.watchers))
+    def watch(self, on_fire=None):
+        d = self.proto.when_disconnected()
+        if on_fire is not None:
+            def hook(x):
+                on_fire()
+                return x
+            d.addBoth(hook)
+        r = DRec(d, 'watch%d' % len(self.watchers))
         self.watchers.append(r)
         self.log.append('when_disconnected() #%d' % (len(self.watchers) - 1))
         return r
